@@ -4,21 +4,24 @@ spec/SuiteCases.tla is one invocation of the program as a step machine (resolve 
 with preprocessing and merging of the suite's contents, [conf], [act] syntax, symbol validation, sandbox, one step
 per instruction, restore) with the state of the OS process threaded through all cases of the invocation, next to the
 declarative reading of the property (what a case does ALONE in a fresh process; "contents of the suite first, in
-[cleanup] last").  TLC checks the clauses (CasePure, OrderIrrelevant, MergeOrder, NotInherited, ThreeWaysAgree,
-OwnSandbox, Preprocessed) on every invocation of three families of inputs
-  hist   sequences of cases that change a setting (env of both / one set, unset, ${} expansion, cd, timeout, def,
-         files in act/ and tmp/, stdin, [conf] status / actor) and end in PASS / FAIL / HARD_ERROR; every case
-         observes at its start, after its change and in its action to check
+[cleanup] last").  TLC checks the clauses (CasePure, OrderIrrelevant, EveryCase, MergeOrder, NotInherited,
+ThreeWaysAgree, OwnSandbox, Preprocessed) on every invocation of three families of inputs
+  hist   sequences of cases that change a setting - in [setup]: env of both / one set, unset, ${} expansion, cd,
+         timeout, def, files in act/ and tmp/, stdin; in [conf]: status, actor; in a later phase: env, def, cd,
+         timeout - or cannot be executed (syntax error, undefined symbol, SKIP), and end in PASS / FAIL / HARD_ERROR
+         ([setup], [act], [cleanup]); every case observes at its start, after its change and in its action to check
   merge  root suite with contents in the phases s0 listing case 1, sub-suite with contents in the complement
-         listing case 2, both cases with contents in the phases cs, every instruction a probe; run via the suite,
-         with --suite, and beside exactly.suite
-  sds    instructions of the suite whose values depend on the sandbox of the running case, 2-3 cases
+         listing case 2, both cases with contents in the phases cs, every instruction a probe, [conf] of a suite =
+         actor + status + preprocessor; run via the suite, with --suite, and beside exactly.suite
+  sds    instructions of the suite whose values depend on the sandbox of the running case (program arguments, shell
+         command, def string / path / program, file contents, here document, env, matchers, paths), 2-3 cases
 refutes the invariants under eight named deviations (the realistic defects), and exports every invocation: the
 documents of all files instruction by instruction, the way of invocation, and what must be observed.  The harness
 renders the documents as suite / case files (one table: instruction -> source text), runs the real main program in
-process, and compares the identifier of every case, the records the probes wrote (in order; environment of the two
-sets, current directory, files in act/ and tmp/, stdin, symbol values, preprocessor mark, and which sandbox every
-value belongs to) and the state of the process afterwards (os.environ, current directory).
+process (a sample again as a subprocess), and compares the identifier of every case, the records the probes wrote
+(in order; environment of the two sets, current directory, files in act/ and tmp/, stdin, symbol values, preprocessor
+mark, and which sandbox every value belongs to) and the state of the process afterwards (os.environ, current
+directory).
 """
 import json
 import os
@@ -35,7 +38,6 @@ INVARIANTS = ['TypeOK', 'CasePure', 'OrderIrrelevant', 'EveryCase', 'MergeOrder'
 ACTIONS = ['Resolve', 'BeginCase', 'AccessCase', 'ConfPhase', 'ParseAct', 'ValidateSymbols', 'CreateSandbox',
            'SetupInstr', 'ActExecute', 'BeforeAssertInstr', 'AssertInstr', 'CleanupInstr', 'NextPhase', 'EndCase',
            'Finish']
-HIST_ACTIONS = ACTIONS
 ALL_MUTS = ['none', 'envAll', 'envAct', 'envNon', 'unset', 'unsetAct', 'expand', 'expandAct', 'cdTmp', 'cdUp', 'cdSub',
             'timeout', 'def', 'refX', 'files', 'stdin', 'statusFail', 'statusSkip', 'actorNull', 'obsT', 'syntaxErr',
             'envBA', 'envCleanup', 'defLate', 'cdLate', 'timeoutLate']
@@ -243,9 +245,19 @@ def concretize(r):
 
 
 # ======================================================================================== execution (workers)
+def _physical_tmp(cd):
+    """the directory the sandboxes are made in, free of symbolic links (probes report physical directories)"""
+    import tempfile
+    real = os.path.realpath(cd.tmp)
+    tempfile.tempdir = real          # (inproc.guarded restores it after the task)
+    os.environ['TMPDIR'] = real
+    return real
+
+
 def exec_run(task, cd):
     from harness import inproc
     log = os.path.join(cd.out, 'log')
+    tmp = _physical_tmp(cd)
 
     def fill(t):
         return t.replace('@HOME@', cd.home).replace('@LOG@', log)
@@ -260,7 +272,7 @@ def exec_run(task, cd):
         with open(log, encoding='utf-8', errors='replace') as fh:
             lines = fh.read().split('\n')
     return dict(exit=r['exit'], exception=r['exception'], traceback=r.get('traceback'), stdout=r['stdout'][:20000],
-                stderr=r['stderr'][:6000], log=lines[:2000], home=cd.home, tmp=cd.tmp,
+                stderr=r['stderr'][:6000], log=lines[:2000], home=cd.home, tmp=tmp,
                 env_after={n: os.environ.get(n) for n in ('A', 'B')}, env_changed=r['env_changed'],
                 cwd_ok=r['cwd_after'] == r['cwd_before'], cwd_after=r['cwd_after'])
 
@@ -270,12 +282,13 @@ def exec_subprocess(task, cd):
     import subprocess
     from harness import runner
     log = os.path.join(cd.out, 'log')
+    tmp = _physical_tmp(cd)
 
     def fill(t):
         return t.replace('@HOME@', cd.home).replace('@LOG@', log)
     cd.write({p: fill(t) for p, t in HELPERS.items()}, mode={'actprobe': 0o755})
     cd.write({p: fill(t) for p, t in task['files'].items()})
-    env = dict(os.environ, PYTHONPATH=os.path.join(runner.REPO, 'src'), TMPDIR=cd.tmp, PYTHONWARNINGS='ignore', B='b0')
+    env = dict(os.environ, PYTHONPATH=os.path.join(runner.REPO, 'src'), TMPDIR=tmp, PYTHONWARNINGS='ignore', B='b0')
     for n in ('A', 'K_E', 'X', 'EXACTLY_VERIF_TRACE'):
         env.pop(n, None)
     p = subprocess.run(['/venv/bin/python', os.path.join(runner.REPO, 'src', 'default-main-program-runner.py')]
@@ -286,7 +299,7 @@ def exec_subprocess(task, cd):
         with open(log, encoding='utf-8', errors='replace') as fh:
             lines = fh.read().split('\n')
     return dict(exit=p.returncode, exception=None, stdout=p.stdout[:20000], stderr=p.stderr[:6000], log=lines[:2000],
-                home=cd.home, tmp=cd.tmp, env_after=None, env_changed=[], cwd_ok=True, cwd_after=None,
+                home=cd.home, tmp=tmp, env_after=None, env_changed=[], cwd_ok=True, cwd_after=None,
                 how='subprocess')
 
 
@@ -682,7 +695,7 @@ def run(ctx):
     try:
         for name, c, env in prepared:
             res = ctx.tlc('SuiteCases', cfg(**c), coverage=True, name='mc-' + name, env=env)
-            ctx.require_coverage(res, ACTIONS if 'merge' in c['families'] else HIST_ACTIONS)
+            ctx.require_coverage(res, ACTIONS)
             if name == 'main':
                 ctx.cov['checker_cmd'] = res.cmd.replace(res.run_dir, '<scratch>')
     finally:
